@@ -28,9 +28,9 @@ def run(ctx):
     quick = ctx.tier == "quick"
     _estargz_overlay(ctx)
     plan = [
-        ("", "h_estargz_c03", "c03gzip", 150 if quick else 4000),
-        ("zstdchunked", "h_zstd_c03", "c03zstd", 70 if quick else 1500),
-        ("externaltoc", "h_exttoc_c03", "c03ext", 50 if quick else 1000),
+        ("", "h_estargz_c03", "c03gzip", 150 if quick else 3000),
+        ("zstdchunked", "h_zstd_c03", "c03zstd", 70 if quick else 1000),
+        ("externaltoc", "h_exttoc_c03", "c03ext", 50 if quick else 700),
     ]
     for pkg, name, tag, n in plan:
         b = ctx.go_test_binary(pkg, name, module_dir="estargz")
